@@ -382,11 +382,13 @@ congruence<Number>::operator%(const congruence<Number> &o) const {
   else {
     /*
          aZ+b mod 0Z+b':
-             if b'|a then  (a/b')Z + b/b'
-             else          top
+             if a=0 or (b'|a and b'|b) then  0Z + (b mod b')
+             else                            gcd(a,b')Z + b
+         (if b' does not divide b the remainders of negative and
+         non-negative dividends differ by |b'|)
     */
     if (o.m_a == 0) {
-      if (m_a % o.m_b == 0) {
+      if (m_a == 0 || (m_a % o.m_b == 0 && m_b % o.m_b == 0)) {
         return congruence<Number>(Number(0), m_b % o.m_b);
       } else {
         return congruence<Number>(gcd(m_a, o.m_b), m_b);
@@ -394,27 +396,20 @@ congruence<Number>::operator%(const congruence<Number> &o) const {
     }
     /*
           0Z+b mod a'Z+b':
-           if N<=0           then 0Z+b
-           if (b div N) == 1 then gcd(b',a')Z + b
-           if (b div N) >= 2 then N(b div N)Z  + b
+           if |b| < N then 0Z+b
+           else            general case
 
-         where N = a'((b-b') div a') + b'
+         where N = min{|n| : n in a'Z+b', n != 0}
     */
     if (m_a == 0) {
-      Number n(o.m_a * (((m_b - o.m_b) / o.m_a) + o.m_b));
-      if (n <= 0) {
+      Number n = (o.m_b == 0 ? o.m_a : min(o.m_b, o.m_a - o.m_b));
+      if (abs(m_b) < n) {
         return congruence<Number>(m_a, m_b);
-      } else if (m_b == n) {
-        return congruence<Number>(gcd(o.m_b, o.m_a), m_b);
-      } else if ((m_b / n) >= 2) {
-        return congruence<Number>(m_b, m_b);
-      } else {
-        CRAB_ERROR("unreachable");
       }
     }
 
     /*
-      general case: no singleton
+      general case: x mod y = x - y*(x/y) and gcd(a',b') divides y
     */
     return congruence<Number>(gcd(m_a, o.m_a, o.m_b), m_b);
   }
